@@ -587,7 +587,7 @@ static std::string c02_config(Rng &r, const World &w, J &probes) {
     }
     // boundary-directed
     CfgSpec s; std::string extra;
-    switch (r.below(15)) {
+    switch (r.below(16)) {
     case 0: { size_t n = (size_t)(r.chance(1, 2) ? r.range(95, 105) : r.range(100, 900)); s.has_format = true; s.format = "x%{" + std::string(n, r.chance(1, 2) ? 'T' : ':') + "}y"; probes.set("p_tag_ge_100", n >= 98); break; }
     case 1: { long lim = r.chance(1, 2) ? 255 : r.range(255, 700); long len = lim + r.range(-1, 1); s.has_format = true; s.format = std::string((size_t)len, 'L'); s.has_logmax = true; s.logmax = std::to_string(lim); probes.set("p_msg_eq_limit", len == lim); break; }
     case 2: { static const char *v[] = {":", ":file", "::", "file:", ":/x", "devlog:", "a:", "socket:", "socket:" , "file::x"}; s.has_output = true; s.output = v[r.below(10)]; probes.set("p_output_colon", true); break; }
@@ -610,6 +610,7 @@ static std::string c02_config(Rng &r, const World &w, J &probes) {
         default: s.output = r.chance(1, 2) ? "devlog" : "stderr"; s.has_logmax = true; s.logmax = "255"; s.has_format = true; s.format = std::string(300, 'M') + "%{cmdline}"; break;
         }
         probes.set("p_errlog_at_limit", true); break; }
+    case 14: { s.has_format = true; s.format = "%{login}|%{username}|%{tty_username}"; probes.set("loginlen", (long)r.range(252, 256)); probes.set("p_login_at_buffer_size", true); break; }
     default: { s.has_format = true; s.format = "%{domain}|%{ipaddr}|%{systemd_unit_name}|%{snoopy_configure_command}|%{rpname}|%{tty_username}|%{login}|%{cgroup:name=systemd}"; }
     }
     std::string f = s.render(r);
@@ -624,8 +625,11 @@ static Plan gen_c02(uint64_t seed, const std::string &tier) {
     for (int i = 0; i < 3; i++) w.socks["/run/snoopy-" + std::to_string(i) + ".sock"] = SockNode();
     J probes = J::obj();
     std::string cfg = c02_config(r, w, probes);
+    if (probes.has("loginlen") && !w.environ_null) { w.login_errno = 6; w.env.push_back((r.chance(1, 2) ? "SUDO_USER=" : "LOGNAME=") + std::string((size_t)probes.geti("loginlen"), 'L')); }
     if (probes.has("longpath")) { if (!w.environ_null) w.env.push_back("LONGPATH=" + probes.gets("longpath")); J np = J::obj(); for (auto &kv : probes.o) if (kv.first != "longpath") np.set(kv.first, kv.second); probes = np; }
+    { J np = J::obj(); for (auto &kv : probes.o) if (kv.first != "loginlen") np.set(kv.first, kv.second); probes = np; }
     if (r.chance(1, 12)) { w.hostname = r.chance(1, 2) ? "" : std::string((size_t)r.range(60, 70), 'h'); }
+    if (r.chance(1, 10) && !w.environ_null) { w.login_errno = 6; w.env.push_back(std::string(r.chance(1, 2) ? "SUDO_USER=" : "LOGNAME=") + std::string((size_t)r.range(250, 260), 'l')); probes.set("p_long_login_fallback", true); }
     if (r.chance(1, 10)) { w.procs[0].cgroup = {"1:name=systemd:/user.slice/user-" + std::string(r.chance(1, 2) ? "12" : "x") + (r.chance(1, 2) ? ".slice" : ""), "garbage", "::", "3:cpu"}; }
     if (r.chance(1, 10)) w.files["/etc/hosts"].content = r.chance(1, 2) ? std::string(3000, 'h') : w.hostname + "." + std::string(1500, 'd') + "\n" + "1.2.3.4 " + w.hostname + ".";
     p.ops.push_back(op_setconfig(cfg));
